@@ -3,5 +3,5 @@
 export GOFLAGS=-mod=mod GOPROXY=off GOSUMDB=off GOTOOLCHAIN=local
 W=$(mktemp -d /tmp/scratch-XXXX); rsync -a --exclude .git /repo/ $W/repo/
 cp "$1" $W/repo/server/zz_scratch_test.go
-(cd $W/repo && go test -vet=off -count=1 -timeout 300s -run "$2" ./server 2>&1 | tail -15); rc=$?
+(cd $W/repo && go test $SCRATCH_FLAGS -vet=off -count=1 -timeout 300s -run "$2" ./server 2>&1 | tail -${SCRATCH_TAIL:-15}); rc=$?
 cd /; rm -rf $W; exit $rc
